@@ -11,11 +11,14 @@ theorem St.t46_gen_addGen_eq (s : St) (x : GenRec) : (s.addGen x).gen s.gens.len
   simp [List.getD_eq_getElem?_getD]
 
 theorem St.T46TaskOk.none (s : St) (e g : Nat) (he : e < s.evs.length) : s.T46TaskOk ⟨e, g, none⟩ :=
-  ⟨he, fun h => by cases h⟩
+  ⟨he, fun h => (by cases h), fun _ h => (by cases h)⟩
+
+theorem St.t46_nc.addGen {s : St} {p : Nat} (h : s.t46_nc p) (x : GenRec) : (s.addGen x).t46_nc p :=
+  ⟨by show p < (s.gens ++ [x]).length; simp; exact Nat.lt_succ_of_lt h.1, by rw [St.t46_gen_addGen_lt s x p h.1]; exact h.2⟩
 
 /-- two `modWait`s on the same wait state, the second of which puts an existing event into `taskEvent` -/
 theorem St.T46K.modWait2Set {s t : St} (h : St.T46K s t) (w : Nat) (F G : WaitSt → WaitSt)
-    (hG : ∀ y, (G y).taskEvent < t.evs.length) : St.T46K s ((t.modWait w F).modWait w G) := by
+    (hG : ∀ y, t.T46WaitOk (G y)) : St.T46K s ((t.modWait w F).modWait w G) := by
   refine h.trans ⟨Nat.le_refl _, Nat.le_refl _, fun _ _ => rfl, fun _ _ ht => Or.inl ht, fun w' hw => ?_⟩
   rw [St.t46_wait_modWait] at hw ⊢
   split
@@ -26,14 +29,18 @@ theorem St.T46K.modWait2Set {s t : St} (h : St.T46K s t) (w : Nat) (F G : WaitSt
     have hl : (t.modWait w F).waits.length = t.waits.length := by simp [St.modWait]
     rw [hl] at hc
     rw [if_neg hc] at hw ⊢
-    exact Or.inl ⟨hw, rfl⟩
+    exact Or.inl ⟨hw, rfl, rfl⟩
 
-theorem St.t46_startWait_K2 (s : St) (w : Nat) (G : WaitSt → WaitSt) (e : Nat) (hG : ∀ y, (G y).taskEvent = e)
-    (he : e < s.evs.length) : St.T46K s ((s.startWait w).modWait w G) := by
+theorem St.t46_startWait_K2 (s : St) (w : Nat) (G : WaitSt → WaitSt) (e pg : Nat)
+    (hG : ∀ y, (G y).taskEvent = e ∧ (G y).parentGen = pg)
+    (he : e < s.evs.length) (hpg : s.t46_nc pg) : St.T46K s ((s.startWait w).modWait w G) := by
   unfold St.startWait
   (try dsimp only)
   have key : ∀ (u : St) (F : WaitSt → WaitSt), St.T46K s u → St.T46K s ((u.modWait w F).modWait w G) :=
-    fun u F hu => hu.modWait2Set w F G (fun y => by rw [hG]; exact Nat.lt_of_lt_of_le he hu.evs)
+    fun u F hu => hu.modWait2Set w F G (fun y => by
+      unfold St.T46WaitOk
+      rw [(hG y).1, (hG y).2]
+      exact ⟨Nat.lt_of_lt_of_le he hu.evs, hpg.mono hu⟩)
   apply key
   t46k
 
@@ -49,14 +56,15 @@ theorem St.t46_applyValue_K (s : St) (r e : Nat) (v : Outcome) (he : ∀ g, v = 
   · t46k
 
 theorem St.t46_onWaitDone_K (s : St) (w e : Nat) (hte : (s.wait w).taskEvent < s.evs.length)
-    (hg : (s.wait w).task < s.gens.length ∧ (s.gen (s.wait w).task).t46_carrier = true) :
+    (hg : (s.wait w).task < s.gens.length ∧ (s.gen (s.wait w).task).t46_carrier = true)
+    (hpn : s.t46_nc (s.wait w).parentGen) :
     St.T46K s (s.onWaitDone w e).2 := by
   unfold St.onWaitDone
   dsimp only
   have hS1 : St.T46K s ((s.modWait w fun x => { x with flag := true }).registerTask (s.wait w).owner
       ⟨(s.wait w).taskEvent, (s.wait w).task, some (s.wait w).parentGen⟩) := by
     apply St.T46K.registerTask
-    case hx => exact ⟨hte, fun _ => hg⟩
+    case hx => exact ⟨hte, fun _ => hg, fun p hp => by cases hp; exact hpn⟩
     t46k
   split
   · split
@@ -66,7 +74,8 @@ theorem St.t46_onWaitDone_K (s : St) (w e : Nat) (hte : (s.wait w).taskEvent < s
     · t46k
   · exact St.T46K.refl s
 
-theorem St.t46_onWaitTick_K (s : St) (w : Nat) (hte : (s.wait w).taskEvent < s.evs.length) :
+theorem St.t46_onWaitTick_K (s : St) (w : Nat) (hte : (s.wait w).taskEvent < s.evs.length)
+    (hpn : s.t46_nc (s.wait w).parentGen) :
     St.T46K s (s.onWaitTick w).2 := by
   unfold St.onWaitTick
   dsimp only
@@ -77,7 +86,9 @@ theorem St.t46_onWaitTick_K (s : St) (w : Nat) (hte : (s.wait w).taskEvent < s.e
           (s.wait w).owner ⟨(s.wait w).taskEvent, s.gens.length, some (s.wait w).parentGen⟩) := by
         apply St.T46K.registerTask
         case h => t46k
-        refine ⟨hte, fun _ => ⟨?_, ?_⟩⟩
+        refine ⟨hte, fun _ => ⟨?_, ?_⟩, fun p hp => by
+          cases hp
+          exact St.t46_nc.addGen (s := s.modWait w fun x => { x with timedOut := true }) hpn _⟩
         · show s.gens.length < (s.gens ++ [GenRec.exc w false]).length
           simp
         · have := St.t46_gen_addGen_eq (s.modWait w fun x => { x with timedOut := true }) (.exc w false)
@@ -96,33 +107,36 @@ theorem St.t46_stopIteration_K (s : St) (r : Nat) (t : Task) (he : t.e < s.evs.l
   · t46k
   · t46k
 
-theorem St.t46_ownSub_K (s : St) (r : Nat) (t : Task) (w : Nat) (he : t.e < s.evs.length) :
+theorem St.t46_ownSub_K (s : St) (r : Nat) (t : Task) (w : Nat) (he : t.e < s.evs.length) (hg : s.t46_nc t.g) :
     St.T46K s (s.ownSub r t w) := by
   unfold St.ownSub
   dsimp only
   refine St.T46K.trans (?_ : St.T46K s ((s.modEv t.e fun x => { x with waiting := x.waiting + 1 }).unregisterTask r
-    ⟨t.e, t.g, none⟩)) (St.t46_startWait_K2 _ w _ t.e (fun _ => rfl) ?_)
+    ⟨t.e, t.g, none⟩)) (St.t46_startWait_K2 _ w _ t.e t.g (fun _ => ⟨rfl, rfl⟩) ?_ ?_)
   · t46k
   · simpa [St.modEv, St.unregisterTask, St.modComp] using he
+  · exact hg
 
-theorem St.t46_parentSub_K (s : St) (r : Nat) (t : Task) (p w2 : Nat) (v : Bool) (he : t.e < s.evs.length) :
-    St.T46K s (s.parentSub r t p w2 v) := by
+theorem St.t46_parentSub_K (s : St) (r : Nat) (t : Task) (p w2 : Nat) (v : Bool) (he : t.e < s.evs.length)
+    (hp : s.t46_nc p) : St.T46K s (s.parentSub r t p w2 v) := by
   unfold St.parentSub
   by_cases hv : v = true
   · rw [if_pos hv]
-    refine St.T46K.registerTask (St.T46K.addGen (St.T46K.refl s) _) r _ ⟨he, fun _ => ⟨?_, ?_⟩⟩
+    refine St.T46K.registerTask (St.T46K.addGen (St.T46K.refl s) _) r _
+      ⟨he, fun _ => ⟨?_, ?_⟩, fun p' hp' => by cases hp'; exact hp.addGen _⟩
     · show s.gens.length < (s.gens ++ [GenRec.one none false]).length
       simp
     · rw [St.t46_gen_addGen_eq]; rfl
   · rw [if_neg hv]
-    exact St.t46_startWait_K2 s w2 _ t.e (fun _ => rfl) he
+    exact St.t46_startWait_K2 s w2 _ t.e p (fun _ => ⟨rfl, rfl⟩) he hp
 
-theorem St.t46_parentPlain_K (s : St) (r : Nat) (t : Task) (p : Nat) (v : Option Nat) (vt : Bool) (he : t.e < s.evs.length) :
-    St.T46K s (s.parentPlain r t p v vt) := by
+theorem St.t46_parentPlain_K (s : St) (r : Nat) (t : Task) (p : Nat) (v : Option Nat) (vt : Bool) (he : t.e < s.evs.length)
+    (hp : s.t46_nc p) : St.T46K s (s.parentPlain r t p v vt) := by
   unfold St.parentPlain
   by_cases hv : vt = true
   · rw [if_pos hv]
-    refine St.T46K.registerTask (St.T46K.addGen (St.T46K.refl s) _) r _ ⟨he, fun _ => ⟨?_, ?_⟩⟩
+    refine St.T46K.registerTask (St.T46K.addGen (St.T46K.refl s) _) r _
+      ⟨he, fun _ => ⟨?_, ?_⟩, fun p' hp' => by cases hp'; exact hp.addGen _⟩
     · show s.gens.length < (s.gens ++ [GenRec.one v false]).length
       simp
     · rw [St.t46_gen_addGen_eq]; rfl
